@@ -5,7 +5,12 @@ from pyvc.values import VBool, VStr
 from . import base  # noqa
 
 # ---- environment classes (trusted models) -------------------------------------------------------------
-R.model("Lock", builtin=True, fields={})
+R.model("Lock", builtin=True, fields={"g_held": "bool"})
+R.contract("Lock.acquire", trusted=True, params={"self": "Lock"}, returns="bool",
+           ghost_modifies=["self.g_held"], ghost_ensures=["self.g_held"],
+           note="explicit acquire (the `with` statement is handled by the executor): the lock is held afterwards")
+R.contract("Lock.release", trusted=True, params={"self": "Lock"},
+           ghost_modifies=["self.g_held"], ghost_ensures=["not self.g_held"])
 R.model("Event", builtin=True, fields={"flag": "bool"})
 R.model("Queue", builtin=True, fields={"qitems": "List[Any]", "maxsize": "int"})
 R.model("StoppableThread", builtin=True, fields={"stopped": "bool", "started": "bool"})
